@@ -5,6 +5,7 @@ D = os.path.join(os.path.dirname(os.path.dirname(os.path.abspath(__file__))), "d
 parts = [open(os.path.join(D, n)).read() for n in ("design_head.md", "design_sec45.md", "design_sec6.md", "design_sec8.md")]
 table = subprocess.check_output(["python3", os.path.join(os.path.dirname(__file__), "seed_table.py")]).decode()
 notes = open(os.path.join(D, "design_seed_notes.md")).read() if os.path.exists(os.path.join(D, "design_seed_notes.md")) else ""
-text = "\n".join(parts).replace("@@SEED_TABLE@@", table).replace("@@SEED_NOTES@@", notes)
+quiet = open(os.path.join(D, "design_quiet.md")).read().strip()
+text = "\n".join(parts).replace("@@SEED_TABLE@@", table).replace("@@SEED_NOTES@@", notes).replace("@@QUIET@@", quiet)
 open(os.path.join(os.path.dirname(D), "DESIGN.md"), "w").write(text)
 print(len(text.splitlines()), "lines")
